@@ -35,7 +35,8 @@ Inductive oval :=
 Record oview := mkOV { ov_files : bool; ov_vals : list oval }.
 
 (** [ODone dump1 v1 None]: the re-read document showed exactly the same values and the
-    second dump was identical (the harness compares them and does not repeat the text) *)
+    second dump was identical (the harness compares them and does not repeat the text);
+    [ODone dump1 v1 (Some (v2, dump2))] with [v2], [dump2] equal to [v1], [dump1] says the same *)
 Inductive docobs :=
 | OBuildErr (e : err)
 | OParseErr (dump1 : string) (v1 : list oview) (e : err)
@@ -202,6 +203,15 @@ Fixpoint list_eqb2 {A B} (f : A -> B -> bool) (l1 : list A) (l2 : list B) : bool
 Definition oview_is (o : oview) (e : bool * list sval) : bool :=
   Bool.eqb (ov_files o) (fst e) && list_eqb2 oval_is (ov_vals o) (snd e).
 
+(** the re-read half of a document observation is the first half: either abbreviated by the
+    harness ([None]) or written out in full and equal to it (same values, same text) — the
+    spelling of a redundant value does not matter to the judgement *)
+Definition again_same (d1 : string) (v1 : list oview) (again : option (list oview * string)) : bool :=
+  match again with
+  | None => true
+  | Some (v2, d2) => views_eqb (map pview_of v2) (map pview_of v1) && str_eqb (dec d2) (dec d1)
+  end.
+
 Definition holds (c : case) : bool :=
   match c with
   | KLines ls _ back =>
@@ -232,8 +242,9 @@ Definition holds (c : case) : bool :=
       let sps := map spara_of specs in
       if wf_copyright (map shop_of hops) sps then
         match obs with
-        | ODone d1 v1 None =>                  (* same paragraphs, same values, identical second dump *)
-            list_eqb2 oview_is (tl v1) (map expected_vals (expected_order sps))
+        | ODone d1 v1 again =>
+            again_same d1 v1 again              (* same paragraphs, same values, identical second dump *)
+            && list_eqb2 oview_is (tl v1) (map expected_vals (expected_order sps))
                                                 (* ... and they are what was put in *)
         | _ => false
         end
@@ -242,8 +253,9 @@ Definition holds (c : case) : bool :=
            document survives: same values before and after, identical second dump, and the
            paragraph kinds in the expected order *)
         match obs with
-        | ODone d1 v1 None =>
-            list_eqb Bool.eqb (map ov_files (tl v1)) (map is_pfiles (expected_order sps))
+        | ODone d1 v1 again =>
+            again_same d1 v1 again
+            && list_eqb Bool.eqb (map ov_files (tl v1)) (map is_pfiles (expected_order sps))
         | _ => false
         end
       else true
